@@ -17,7 +17,9 @@ META = dict(
             'rounding step in {0.1, 0.5, 1.0, 0 (=0.01 resolution)}', 'amplifier type imposed in H9a-H9c',
             'H9c: two-span OMS (booster, in-line, preamp), span losses in [5, 35] dB, p_max in [15, 30] dBm, 40 channels, automatic output VOA on/off',
             'H9d: model auto-selected among 3 sub-libraries (EDFA only / with Raman hybrids / fixed gain + high power); span loss in [5, 45] dB, '
-            '1-400 channels; 3 upstream states (7 thorough)'],
+            '1-400 channels; 3 upstream states (7 thorough)',
+            'transceiver-started OMS: SI tx_power_dbm absent or symbolic in [-5, 5] dBm, reference power 2 dBm',
+            'H9e: fibre - fused (0.5 dB) - fibre with symbolic lengths in [1, 60] km each, padding 10 dB, range [-6, 3] step 0.5'],
     assumptions=['floats as reals (rounding to the step modelled exactly)', 'Raman gain estimate and SRS tilt deviation zero (no Raman '
                  'fibre; deviation_db=0)', 'propagation of the design comb reproducing these powers follows from C04/C05/C06 element steps'],
     stubs=['span loss injected through the design_span_loss cache attribute that span_loss() itself maintains'],
